@@ -190,7 +190,7 @@ func (p *Parser) parseComment() ast.Node {
 	isBlockComment := (p.curToken.Type() == token.BLOCKCOMMENT)
 	log.Debugf("parseComment: %#v", r)
 	if isBlockComment {
-		if !strings.HasSuffix(p.curToken.Literal(), "*/") {
+		if lit := p.curToken.Literal(); len(lit) < 4 || !strings.HasSuffix(lit, "*/") { // "/*/" is not closed.
 			log.LogVf("parseComment: block comment not closed: %s", p.curToken.DebugString())
 			p.continuationNeeded = true
 			return nil
